@@ -134,6 +134,11 @@ def fixed():
             checks.append(dict({"op": "create", "at": "", "h": ["md5"], "now": "2026-03-01 12:30:00"}, **kw))
             out.append({"profile": "c03-three-levels", "root": "root", "tree": tree, "ops": seal + mut + checks,
                         "c03": {"altered": [], "removed": [victim] if victim else [], "added": [], "patterns": [], "late_pattern": None, "n_seal": 3, "n_mut": len(mut)}})
+    # a recorded empty folder removed and a FILE of the same name put in its place: the path is there, its entry is new
+    out.append({"profile": "c03-folder-becomes-file", "impl_only": True, "root": "root", "tree": {"a.txt": "a", "e/": None, "s/f/": None, "s/b.txt": "b"},
+                "ops": [{"op": "create", "at": "", "h": ["md5"], "now": "2026-03-01 12:00:01"}, {"op": "rm", "path": "e"}, {"op": "write", "path": "e", "data": "now a file"},
+                        {"op": "rm", "path": "s/f"}, {"op": "write", "path": "s/f", "data": "now a file"}, {"op": "verify", "at": ""}, {"op": "diff", "at": ""}],
+                "c03": {"altered": [], "removed": [], "added": ["e", "s/f"], "patterns": [], "late_pattern": None, "n_seal": 1, "n_mut": 4}})
     # the usual "no hidden files" pattern, then recorded entries removed
     for pat in (".*", "?", "[.]*"):
         tree = {"a.txt": "a", "sub/b.txt": "b", "sub/deep/c.txt": "c", ".hidden": "h", "sub/.DS_Info": "i", "x": "single letter name"}
